@@ -701,3 +701,183 @@ HARNESS(x, xbt_dynar_free(nondet_bool() ? NULL : &g_var))
 #ifdef H_cursor_get
 HARNESS(x, _xbt_dynar_cursor_get(dyn_or_null(), nondet_uint(), g_buf))
 #endif
+
+/* =====================================================================================================================
+ * xbt_dict (src/xbt/dict.cpp, dict_elm.c, dict_cursor.c): BOUNDED check, no contracts.
+ * The real bodies of xbt_dict_new_homogeneous / set_ext / set / get_or_null_ext / get_or_null / get_elm_or_null /
+ * remove_ext / length / size / is_empty / xbt_dictelm_new / _free / _set_data / xbt_str_hash(_ext) and of the cursor
+ * (first / rewind / new / step / get_or_free / free) are executed symbolically ("plain" harness: no dfcc, loops unwound
+ * with unwinding assertions) over EVERY sequence of DICT_NOPS operations on at most 3 pairwise different keys of at most
+ * 2 characters (all key characters, the operation kinds, the values and free_f symbolic), on the real 128-cell table.
+ * The view is a finite map (P[i], V[i]); after every operation every key is looked up through both lookup functions and
+ * count / fill / emptiness are compared with the map. Symbolic keys include keys that fall into one cell; the
+ * *_collide variants force all three keys into one cell (constraint on the value of the real hash function).
+ * ===================================================================================================================== */
+struct s_xbt_mallocator* dict_elm_mallocator; /* the element mallocator is modelled by malloc/free (object pool dropped) */
+void* xbt_mallocator_get(struct s_xbt_mallocator* m)
+{
+  (void)m;
+  return malloc(sizeof(struct s_xbt_dictelm));
+}
+void xbt_mallocator_release(struct s_xbt_mallocator* m, void* p)
+{
+  (void)m;
+  free(p);
+}
+void xbt_dict_preinit(void) {} /* creates the mallocator under a std::mutex: outside the model */
+void xbt_dict_rehash(struct s_xbt_dict* d)
+{
+  (void)d;
+  __CPROVER_assert(0, "xbt_dict_rehash is not reachable: 3 keys never fill 80% of 128 cells"); /*@ dict_rehash_unreachable */
+}
+
+#if defined(H_dict_ops) || defined(H_dict_cursor)
+#ifndef DICT_NOPS
+#define DICT_NOPS 4
+#endif
+static char K0[3], K1[3], K2[3]; /* the keys, NUL terminated: one object per key and a pointer chosen among constant
+                                  * addresses (a 2-D array indexed by a symbolic i turns every key read into a byte
+                                  * extract over the whole array: 800 MB of formula) */
+#define K(i) ((i) == 0 ? K0 : (i) == 1 ? K1 : K2)
+static int KL[3];         /* their lengths (0..2) */
+static unsigned int HB[3]; /* their cells: real hash & 127 */
+static _Bool P[3];        /* view: key i present */
+static void* V[3];        /* view: its value */
+static char g_vals[4];    /* the values are addresses of these */
+static unsigned long g_freed;
+static void* g_freed_last;
+void dict_free_cb(void* p)
+{
+  g_freed++;
+  g_freed_last = p;
+}
+char nondet_char(void);
+static _Bool key_eq(int i, int j)
+{
+  return KL[i] == KL[j] && (KL[i] < 1 || K(i)[0] == K(j)[0]) && (KL[i] < 2 || K(i)[1] == K(j)[1]);
+}
+static struct s_xbt_dict* dict_setup(void)
+{
+  vf_exc = 0;
+  for (int i = 0; i < 3; i++) {
+    KL[i] = nondet_int();
+    __CPROVER_assume(0 <= KL[i] && KL[i] <= 2);
+    K(i)[0] = nondet_char();
+    K(i)[1] = nondet_char();
+    K(i)[2] = 0;
+    K(i)[KL[i]] = 0;
+    __CPROVER_assume((KL[i] < 1 || K(i)[0] != 0) && (KL[i] < 2 || K(i)[1] != 0));
+    HB[i] = xbt_str_hash_ext(K(i), KL[i]) & 127u;
+    P[i]  = 0;
+    V[i]  = NULL;
+  }
+  __CPROVER_assume(!key_eq(0, 1) && !key_eq(0, 2) && !key_eq(1, 2));
+#ifdef COLLIDE
+  __CPROVER_assume(HB[0] == HB[1] && HB[1] == HB[2]); /* all three keys in one cell of the table */
+#endif
+  g_freed = 0;
+  struct s_xbt_dict* d = xbt_dict_new_homogeneous(nondet_bool() ? NULL : (vf_fnptr)dict_free_cb);
+  __CPROVER_assert(vf_exc == 0 && d != NULL && d->count == 0 && d->fill == 0 && d->table_size == 127, "new dict is empty"); /*@ dict_new_is_empty */
+  return d;
+}
+/* the view is compared for ONE key chosen by the solver (as complete as comparing all three, three times cheaper) */
+static void dict_check_view(struct s_xbt_dict* d)
+{
+  int i = nondet_int();
+  __CPROVER_assume(0 <= i && i <= 2);
+  void* r1 = xbt_dict_get_or_null_ext(d, K(i), KL[i]);
+  void* r2 = xbt_dict_get_or_null(d, K(i));
+  __CPROVER_assert(r1 == (P[i] ? V[i] : NULL), "get_or_null_ext agrees with the map"); /*@ dict_get_ext_agrees_with_map */
+  __CPROVER_assert(r2 == (P[i] ? V[i] : NULL), "get_or_null agrees with the map");     /*@ dict_get_agrees_with_map */
+  __CPROVER_assert(vf_exc == 0, "lookups do not throw");
+  int n = (P[0] ? 1 : 0) + (P[1] ? 1 : 0) + (P[2] ? 1 : 0);
+  __CPROVER_assert(xbt_dict_length(d) == n && xbt_dict_size(d) == (unsigned)n && xbt_dict_is_empty(d) == (n == 0),
+                   "length/size/is_empty agree with the map"); /*@ dict_length_agrees_with_map */
+  int cells = (P[0] ? 1 : 0) + ((P[1] && !(P[0] && HB[0] == HB[1])) ? 1 : 0) +
+              ((P[2] && !(P[0] && HB[0] == HB[2]) && !(P[1] && HB[1] == HB[2])) ? 1 : 0);
+  __CPROVER_assert(d->fill == cells, "fill counts the non-empty cells"); /*@ dict_fill_counts_nonempty_cells */
+}
+/* one operation chosen by the solver, mirrored on the map */
+static void dict_step(struct s_xbt_dict* d)
+{
+  int i = nondet_int(), op = nondet_int();
+  __CPROVER_assume(0 <= i && i <= 2 && 0 <= op && op <= 2);
+  void* v                = &g_vals[nondet_uint() & 3u];
+  unsigned long freed0   = g_freed;
+  _Bool frees            = d->free_f != NULL && P[i];
+  if (op <= 1) {
+    if (op == 0)
+      xbt_dict_set_ext(d, K(i), KL[i], v);
+    else
+      xbt_dict_set(d, K(i), v);
+    __CPROVER_assert(vf_exc == 0, "set never throws");                                               /*@ dict_set_never_throws */
+    __CPROVER_assert(g_freed == freed0 + (frees ? 1 : 0) && (!frees || g_freed_last == V[i]),
+                     "set releases exactly the replaced value"); /*@ dict_set_frees_replaced_value */
+    P[i] = 1;
+    V[i] = v;
+  } else {
+    xbt_dict_remove_ext(d, K(i), KL[i]);
+    __CPROVER_assert((vf_exc == VF_EXC_out_of_range) == !P[i] && (vf_exc == 0 || vf_exc == VF_EXC_out_of_range),
+                     "remove throws out_of_range iff the key is absent"); /*@ dict_remove_throws_iff_absent */
+    __CPROVER_assert(g_freed == freed0 + (frees ? 1 : 0) && (!frees || g_freed_last == V[i]),
+                     "remove releases exactly the removed value"); /*@ dict_remove_frees_removed_value */
+    vf_exc = 0;
+    P[i]   = 0;
+  }
+}
+/* any number of operations up to DICT_NOPS (so the final comparison covers every intermediate state too) */
+static void dict_history(struct s_xbt_dict* d)
+{
+  int m = nondet_int();
+  __CPROVER_assume(0 <= m && m <= DICT_NOPS);
+  for (int s = 0; s < DICT_NOPS; s++)
+    if (s < m)
+      dict_step(d);
+}
+#endif
+
+#ifdef H_dict_ops
+void harness(void)
+{
+  struct s_xbt_dict* d = dict_setup();
+  dict_history(d);
+  dict_check_view(d);
+  VF_CANARY_POINT;
+}
+#endif
+
+#ifdef H_dict_cursor
+/* iteration (xbt_dict_foreach = cursor_first; get_or_free; step): after any DICT_NOPS operations the cursor yields
+ * every present key exactly once with its value, nothing else, then frees itself */
+void harness(void)
+{
+  struct s_xbt_dict* d = dict_setup();
+  dict_history(d);
+  struct s_xbt_dict_cursor* cur = NULL;
+  char* key;
+  void* data;
+  int seen[3] = {0, 0, 0};
+  int n = 0, others = 0;
+  xbt_dict_cursor_first(d, &cur);
+  for (int it = 0; it < 4; it++) {
+    if (!xbt_dict_cursor_get_or_free(&cur, &key, &data))
+      break;
+    n++;
+    _Bool hit = 0;
+    for (int i = 0; i < 3; i++)
+      if (P[i] && key[0] == K(i)[0] && (K(i)[0] == 0 || (key[1] == K(i)[1] && (K(i)[1] == 0 || key[2] == 0)))) {
+        seen[i]++;
+        hit = 1;
+        __CPROVER_assert(data == V[i], "the cursor yields the value of the key"); /*@ dict_cursor_yields_value */
+      }
+    if (!hit)
+      others++;
+    xbt_dict_cursor_step(cur);
+  }
+  __CPROVER_assert(vf_exc == 0 && cur == NULL, "the iteration ends within count steps and releases the cursor"); /*@ dict_cursor_terminates */
+  __CPROVER_assert(others == 0 && seen[0] == (P[0] ? 1 : 0) && seen[1] == (P[1] ? 1 : 0) && seen[2] == (P[2] ? 1 : 0),
+                   "the cursor visits every present key exactly once and nothing else"); /*@ dict_cursor_visits_each_key_once */
+  __CPROVER_assert(n == xbt_dict_length(d), "as many items as the length");           /*@ dict_cursor_count_is_length */
+  VF_CANARY_POINT;
+}
+#endif
